@@ -426,3 +426,85 @@ func BackendLossMidReply(kind string, cut int, bound int) *world.Scenario {
 	return &world.Scenario{Nodes: T3m(), Bound: bound, Family: "backend-loss-mid-reply", Horizon: 400, ReplyCuts: []int{cut}, ReuseFds: true,
 		Clients: []world.ClientSpec{cs}, Faults: []world.Fault{{Kind: kind, Addr: AddrA, AfterW: 1}}}
 }
+
+// ---------------------------------------------------------------------------------------------
+// production-size replies parked for a slow reader while the request objects are recycled
+
+// patterned payload of n bytes that names its owner at every offset (so foreign bytes are recognisable)
+func patterned(tag string, n int) string {
+	var sb strings.Builder
+	for i := 0; sb.Len() < n; i++ {
+		sb.WriteString(fmt.Sprintf("<%s@%d>", tag, sb.Len()))
+	}
+	return sb.String()[:n]
+}
+
+// BigSlowRecycle: buffers at their production sizes (64 KiB). Client 0 reads slowly: after a PING it pipelines GETs whose
+// replies have the given sizes; the first flush meets a full socket (write oracle), so the replies are parked in the
+// outbound buffer (ring part up to 64 KiB, the rest in the overflow list) while their request objects go back to the
+// pool. Client 1 then pipelines two GETs (replies of bSize bytes) that reuse those objects while the backlog is still
+// queued; only then does the slow client drain. Every byte must reach its own client.
+func BigSlowRecycle(name string, sizes []int, bSize int, bound int) *world.Scenario {
+	sc := &world.Scenario{Nodes: T3m(), Bound: bound, Family: "big-slow-recycle", Horizon: 3000, WriteOracle: true,
+		ReadCap: 65536, WriteCap: 65536, MaxLen: 8 << 20}
+	replyOf := map[string][]byte{}
+	reqs := []Req{PingReq()}
+	for j, sz := range sizes {
+		k := keysA[j]
+		r := GetReq(k)
+		r.Expect = world.Bulk(patterned("A"+k, sz))
+		replyOf[k] = r.Expect
+		reqs = append(reqs, r)
+	}
+	cs := ClientOf(reqs, false)
+	var rest []byte
+	for _, r := range reqs[1:] {
+		rest = append(rest, r.Bytes...)
+	}
+	cs.Chunks = []world.Chunk{{Data: reqs[0].Bytes}, {Data: rest, WaitReplies: 1}}
+	cs.Slow = true
+	var breqs []Req
+	var ball []byte
+	for j := 0; j < 2; j++ {
+		k := keysB[j]
+		r := GetReq(k)
+		r.Expect = world.Bulk(patterned("B"+k, bSize))
+		replyOf[k] = r.Expect
+		breqs = append(breqs, r)
+		ball = append(ball, r.Bytes...)
+	}
+	cb := ClientOf(breqs, true)
+	nA := len(sizes)
+	// the second client only speaks once the proxy has read every reply meant for the slow client
+	cb.Chunks[0].Gate = func(w *world.World) bool {
+		n := 0
+		for _, bc := range w.BConns {
+			for i, rec := range bc.Log {
+				if len(rec.Args) > 1 && bc.Addr == AddrA && world.Lower(rec.Args[0]) == "get" && bc.ReadByProxy(i) {
+					n++
+				}
+			}
+		}
+		return n >= nA
+	}
+	sc.Clients = []world.ClientSpec{cs, cb}
+	sc.Reply = func(w *world.World, bc *world.BConn, args [][]byte) ([]byte, int) {
+		if len(args) > 1 {
+			if r, ok := replyOf[string(args[1])]; ok {
+				return r, 0
+			}
+		}
+		return nil, 0
+	}
+	sc.Name = fmt.Sprintf("%s/big-slow-recycle/replies%v/then%d/d%d", name, sizes, bSize, bound)
+	sc.Check = func(w *world.World) []world.Violation {
+		vs := CheckStreams(w, StreamOpts{})
+		for i := range vs {
+			if len(vs[i].Msg) > 600 {
+				vs[i].Msg = vs[i].Msg[:600] + "..."
+			}
+		}
+		return vs
+	}
+	return sc
+}
